@@ -44,6 +44,8 @@ func (te *tableEngine) delay(interval int, fn func() error) error {
 }
 
 func (te *tableEngine) updateGameState(gs *pokerface.GameState) {
+	te.verifHook("ugs.enter")
+	defer te.verifHook("ugs.exit")
 	te.table.State.GameState = gs
 
 	if te.table.State.Status == TableStateStatus_TableGamePlaying {
@@ -208,6 +210,7 @@ func (te *tableEngine) batchAddPlayers(players []JoinPlayer) error {
 		}
 	}
 
+	te.verifHook("members.add.mid")
 	// update table state
 	newSeatMap := make([]int, len(te.table.State.SeatMap))
 	copy(newSeatMap, te.table.State.SeatMap)
@@ -317,6 +320,7 @@ func (te *tableEngine) batchRemovePlayers(playerIDs []string) error {
 	te.table.State.PlayerStates = newPlayerStates
 	te.table.State.SeatMap = newSeatMap
 	te.table.State.GamePlayerIndexes = newGamePlayerIndexes
+	te.verifHook("members.remove.mid")
 	return te.sm.RemoveSeats(playerIDs)
 }
 
